@@ -123,3 +123,9 @@ func SetMapOrder(o string) {}
 
 // LocksHeld is the number of sync locks currently held (engine ghost counter).
 func LocksHeld() int { return 0 }
+
+// EnvLog is the ghost log of the environment stubs (symbolic runs only).
+func EnvLog() []string { return nil }
+
+// Tag names the object x points to, so that environment stubs can report which object they were handed.
+func Tag(x interface{}, name string) {}
